@@ -891,6 +891,16 @@ func (e *Env) evalCall(x ECall) (tval, error) {
 			return tval{}, fmt.Errorf("alloc of a non-reference value")
 		}
 		return tval{T: intT, C: []string{v.C[0]}}, nil
+	case "boxid":
+		// boxid(v): the identity of the value an interface holds (for a boxed pointer: which object it points to)
+		v, err := e.eval(x.Args[0])
+		if err != nil {
+			return tval{}, err
+		}
+		if !isIfaceT(v.T) || len(v.C) != 2 {
+			return tval{}, fmt.Errorf("boxid of a non-interface value")
+		}
+		return tval{T: intT, C: []string{v.C[1]}}, nil
 	case "iface":
 		// iface(x): the interface value MakeInterface would produce for x (pure term, usable under quantifiers)
 		v, err := e.eval(x.Args[0])
